@@ -7,6 +7,7 @@ package main
 
 import (
 	"fmt"
+	"go/token"
 	"sort"
 	"strconv"
 	"strings"
@@ -78,12 +79,42 @@ func loopFunction(k *ssa.Function) *ssa.Function {
 		}
 		if ok {
 			cand = f
+			for i := len(k.Params); i < len(args); i++ {
+				a := args[i]
+				for {
+					if ct, ok := a.(*ssa.ChangeType); ok {
+						a = ct.X
+						continue
+					}
+					break
+				}
+				if fv, isFn := a.(*ssa.Function); isFn {
+					fnValueBinding[f.Params[i]] = fv
+				}
+			}
 		}
 	}
 	if n == 1 && cand != nil && len(timeLoops(cand)) > 0 {
 		return cand
 	}
 	return k
+}
+
+// zeroDriver: when all the named driver inputs are zero at a timestep, the named outputs are zero.
+type zeroDriver struct {
+	drivers []string
+	outs    []string
+	note    string
+}
+
+var zeroDriverTable = map[string][]zeroDriver{
+	"DynamicSednetGully":    {{drivers: []string{"quickflow"}, outs: []string{"fineLoad", "coarseLoad", "generatedFine", "generatedCoarse"}, note: "no gully load without runoff"}},
+	"DynamicSednetGullyAlt": {{drivers: []string{"quickflow"}, outs: []string{"fineLoad", "coarseLoad", "generatedFine", "generatedCoarse"}, note: "no gully load without runoff"}},
+	"USLEFineSedimentGeneration": {{drivers: []string{"quickflow"}, outs: []string{"quickLoadFine", "quickLoadCoarse", "generatedLoadFine", "generatedLoadCoarse"}, note: "no hillslope load without quickflow"},
+		{drivers: []string{"baseflow"}, outs: []string{"slowLoadFine"}, note: "no dry-weather load without baseflow"}},
+	"BankErosion": {{drivers: []string{"downstreamFlowVolume"}, outs: []string{"bankErosionFine", "bankErosionCoarse"}, note: "no bank erosion without flow"}},
+	"SednetParticulateNutrientGeneration": {{drivers: []string{"fineSedModelFineSheetGeneratedKg", "fineSedModelCoarseSheetGeneratedKg", "fineSedModelFineGullyGeneratedKg", "fineSedModelCoarseGullyGeneratedKg"}, outs: []string{"quickflowConstituent", "hillslopeContribution", "gullyContribution"}, note: "no particulate load without sediment supply"},
+		{drivers: []string{"slowflow"}, outs: []string{"slowflowConstituent"}, note: "no dry-weather load without slow flow"}},
 }
 
 func checkPathIdentities(p *Program, r *Report) {
@@ -99,7 +130,8 @@ func checkPathIdentities(p *Program, r *Report) {
 		names = append(names, n)
 	}
 	sort.Strings(names)
-	nModels, nPaths, nRel := 0, 0, 0
+	nModels, nPaths, nRel, nZero := 0, 0, 0, 0
+	r.Rule("R16.5", "zero driver, zero load: on every feasible path through a timestep that is possible when the model's driver (flow, sediment supply) is zero — i.e. that takes no branch edge contradicted by driver = 0 — the polynomial written to each driven output vanishes identically once the driver is set to 0 (helpers, including an export function passed as a function value, are inlined path by path)")
 	for _, name := range names {
 		m := byName[name]
 		if m == nil || m.Kernel == nil {
@@ -108,6 +140,9 @@ func checkPathIdentities(p *Program, r *Report) {
 		}
 		nModels++
 		key := m.RelPkg + "." + m.Name
+		for prm := range fnValueBinding {
+			delete(fnValueBinding, prm)
+		}
 		k := loopFunction(m.Kernel)
 		loops := timeLoops(k)
 		if len(loops) != 1 {
@@ -178,6 +213,43 @@ func checkPathIdentities(p *Program, r *Report) {
 			failed   []int // indices of relations that do not close
 			resid    map[int]poly
 			pc       *pathCtx
+			// zero-driver rule: for driver set d, is the path consistent with all its drivers being 0, and which
+			// outputs do not vanish then
+			zeroBad map[int]map[int]poly
+		}
+		zds := zeroDriverTable[name]
+		type zdIdx struct {
+			drv  map[string]bool // canonical names in<k>
+			outs []int
+		}
+		var zdi []zdIdx
+		for _, zd := range zds {
+			z := zdIdx{drv: map[string]bool{}}
+			okz := true
+			for _, dn := range zd.drivers {
+				found := false
+				for i, in := range m.Inputs {
+					if in == dn {
+						z.drv[fmt.Sprintf("in%d", i)] = true
+						found = true
+					}
+				}
+				okz = okz && found
+			}
+			for _, on := range zd.outs {
+				found := false
+				for i, o := range m.Outputs {
+					if o == on {
+						z.outs = append(z.outs, i)
+						found = true
+					}
+				}
+				okz = okz && found
+			}
+			if !okz {
+				r.Undecided("R16.5", key+":spec", m.SpecFile, "a driver or output named in the zero-driver table is not in the OW-SPEC of "+m.Name)
+			}
+			zdi = append(zdi, z)
 		}
 		evaluate := func(path []*ssa.BasicBlock, frames map[*ssa.Call]*frame) outcome {
 			pc := &pathCtx{pos: map[*ssa.BasicBlock]int{}, path: path, stateOf: map[*ssa.Phi]int{}, kernel: k, frames: frames}
@@ -203,8 +275,9 @@ func checkPathIdentities(p *Program, r *Report) {
 					pc.names[cv] = fmt.Sprintf("in%d", i)
 				}
 			}
-			oc := outcome{feasible: true, pc: pc, resid: map[int]poly{}}
+			oc := outcome{feasible: true, pc: pc, resid: map[int]poly{}, zeroBad: map[int]map[int]poly{}}
 			condVal := map[condKey]bool{}
+			zeroImpossible := map[int]bool{}
 			edge := func(fr *frame, a, b *ssa.BasicBlock) {
 				c, v, ok := edgeCond(a, b)
 				if !ok {
@@ -218,6 +291,64 @@ func checkPathIdentities(p *Program, r *Report) {
 				pc.cur = fr
 				if bv, known := pc.boolConst(c, 0); known && bv != v {
 					oc.feasible = false
+				}
+				// is this edge possible when a driver set is zero?  cond: (poly that vanishes with the drivers) op const
+				if bo, ok := c.(*ssa.BinOp); ok {
+					for zi, z := range zdi {
+						sub := map[string]string{}
+						for d := range z.drv {
+							sub[d] = "0"
+						}
+						var lhs ssa.Value
+						var cst *ssa.Const
+						flip := false
+						if k2, ok := bo.Y.(*ssa.Const); ok {
+							lhs, cst = bo.X, k2
+						} else if k2, ok := bo.X.(*ssa.Const); ok {
+							lhs, cst, flip = bo.Y, k2, true
+						}
+						if lhs == nil || cst == nil || cst.Value == nil {
+							continue
+						}
+						lp := pc.ex(lhs, 0)
+						if len(polySyms(lp, "in")) == 0 || !polyIsZero(substitute(lp, sub)) {
+							continue // does not vanish with the drivers: says nothing
+						}
+						cv := cst.Float64()
+						var truth bool
+						op := bo.Op
+						if flip {
+							switch op {
+							case token.LSS:
+								op = token.GTR
+							case token.GTR:
+								op = token.LSS
+							case token.LEQ:
+								op = token.GEQ
+							case token.GEQ:
+								op = token.LEQ
+							}
+						}
+						switch op {
+						case token.EQL:
+							truth = 0 == cv
+						case token.NEQ:
+							truth = 0 != cv
+						case token.LSS:
+							truth = 0 < cv
+						case token.LEQ:
+							truth = 0 <= cv
+						case token.GTR:
+							truth = 0 > cv
+						case token.GEQ:
+							truth = 0 >= cv
+						default:
+							continue
+						}
+						if truth != v {
+							zeroImpossible[zi] = true
+						}
+					}
 				}
 				pc.cur = nil
 			}
@@ -337,15 +468,38 @@ func checkPathIdentities(p *Program, r *Report) {
 					oc.resid[ri] = first
 				}
 			}
+			for zi, z := range zdi {
+				if zeroImpossible[zi] {
+					continue
+				}
+				sub := map[string]string{}
+				for d := range z.drv {
+					sub[d] = "0"
+				}
+				for _, oi := range z.outs {
+					op, ok := outPoly[oi]
+					if !ok {
+						continue // not written: stays zero
+					}
+					d := pc.clearDenominators(substitute(op, sub))
+					if !polyIsZero(d) {
+						if oc.zeroBad[zi] == nil {
+							oc.zeroBad[zi] = map[int]poly{}
+						}
+						oc.zeroBad[zi][oi] = d
+					}
+				}
+			}
 			return oc
 		}
 		relBad := map[int]string{}
+		zeroMsg := map[string]string{}
 		for _, path := range paths {
 			oc := evaluate(path, nil)
 			if !oc.feasible {
 				continue
 			}
-			if len(oc.failed) > 0 {
+			if len(oc.failed) > 0 || len(oc.zeroBad) > 0 {
 				// retry with the scalar helpers on the path inlined along each of their paths
 				var inl []*ssa.Call
 				var inlPaths [][][]*ssa.BasicBlock
@@ -366,7 +520,8 @@ func checkPathIdentities(p *Program, r *Report) {
 				if len(inl) > 0 && combos <= 4096 {
 					choice := make([]int, len(inl))
 					stillBad := map[int]poly{}
-					var badCtx *pathCtx
+					stillZero := map[int]map[int]poly{}
+					var badCtx, zeroCtx *pathCtx
 					any := false
 					for {
 						frames := map[*ssa.Call]*frame{}
@@ -380,6 +535,17 @@ func checkPathIdentities(p *Program, r *Report) {
 								if _, seen := stillBad[ri]; !seen {
 									stillBad[ri] = o2.resid[ri]
 									badCtx = o2.pc
+								}
+							}
+							for zi, mm := range o2.zeroBad {
+								for oi, d := range mm {
+									if stillZero[zi] == nil {
+										stillZero[zi] = map[int]poly{}
+									}
+									if _, seen := stillZero[zi][oi]; !seen {
+										stillZero[zi][oi] = d
+										zeroCtx = o2.pc
+									}
 								}
 							}
 						}
@@ -407,9 +573,21 @@ func checkPathIdentities(p *Program, r *Report) {
 					if badCtx != nil {
 						oc.pc = badCtx
 					}
+					oc.zeroBad = stillZero
+					if zeroCtx != nil && badCtx == nil {
+						oc.pc = zeroCtx
+					}
 				}
 			}
 			nPaths++
+			for zi, mm := range oc.zeroBad {
+				for oi, d := range mm {
+					zk := fmt.Sprintf("%d:%d", zi, oi)
+					if _, seen := zeroMsg[zk]; !seen {
+						zeroMsg[zk] = fmt.Sprintf("on the path through one timestep with branches [%s], which is possible when %s is zero, output `%s` is %s", describePath(p, path), strings.Join(zds[zi].drivers, ", "), m.Outputs[oi], oc.pc.show(p, m, d))
+					}
+				}
+			}
 			for _, ri := range oc.failed {
 				if _, seen := relBad[ri]; !seen {
 					relBad[ri] = fmt.Sprintf("on the path through one timestep with branches [%s]: left − right, cleared of denominators, is %s", describePath(p, path), oc.pc.show(p, m, oc.resid[ri]))
@@ -425,9 +603,21 @@ func checkPathIdentities(p *Program, r *Report) {
 				r.OK("R16.4", fmt.Sprintf("%s: %s holds on every feasible path through a timestep", key, strings.Join(rp.src.alts, " | ")))
 			}
 		}
+		for zi, zd := range zds {
+			for _, oi := range zdi[zi].outs {
+				nZero++
+				zkey := fmt.Sprintf("%s:zero-driver:%s→%s", key, strings.Join(zd.drivers, "+"), m.Outputs[oi])
+				if msg, bad := zeroMsg[fmt.Sprintf("%d:%d", zi, oi)]; bad {
+					r.Fail("R16.5", zkey, p.Pos(k.Pos()), fmt.Sprintf("%s (%s): %s — not identically zero", m.Name, zd.note, msg))
+				} else {
+					r.OK("R16.5", fmt.Sprintf("%s: `%s` vanishes on every path that is possible with %s = 0", key, m.Outputs[oi], strings.Join(zd.drivers, ", ")))
+				}
+			}
+		}
 	}
 	r.Analysed["R16.4 models"] = nModels
 	r.Analysed["R16.4 feasible paths through one timestep"] = nPaths
 	r.Floor("R16.4", "models with per-path identities", nModels, 6)
 	r.Floor("R16.4", "relations", nRel, 10)
+	r.Floor("R16.5", "driven outputs", nZero, 10)
 }
